@@ -139,6 +139,12 @@ class ProofUnit(Unit):
                     rec = replay_refuted(self, ob, oracle, ctx)
                     results.append(Result(nm, ob.kind, REFUTED, ob.backend, ob.time, rep["function"], detail=str(ob.info)[:800], model=rec["model"], replay=rec,
                                           props=ob.props, finding=ob.info.get("finding") if isinstance(ob.info, dict) else None))
+                elif ob.result == "UNREACHABLE" and ob.name.endswith("/cover/return"):
+                    # no input makes the function return normally any more: every property stated on its result is broken
+                    # (on the unchanged tree this obligation holds, so this is a statement about the changed code, not about the contract)
+                    rec = replay_refuted(self, ob, oracle, ctx)
+                    rec["detail"] = "no input lets %s return normally: the normal outcome the contract expects is unreachable" % rep["function"]
+                    results.append(Result(nm, "post", REFUTED, ob.backend, ob.time, rep["function"], detail=rec["detail"], model=None, replay=rec, props=ob.props or list(self.props)))
                 elif ob.result in ("VACUOUS", "UNREACHABLE"):
                     results.append(Result(nm, ob.kind, ERROR, ob.backend, ob.time, rep["function"], detail="vacuity guard: %s" % ob.result, props=ob.props))
                 elif ob.result == "disagree":
